@@ -65,6 +65,11 @@ CHECKS = {
   technique='TLA+ spec Setup.tla (symbol table, Required closure, contract Rejected <=> something missing, mechanism variants) with SetupMC.tla model-checked by TLC, which also enumerates the case universe; every case and every shipped equation/stepper class with one needed name removed is built with the real AccelerationEval / SPHCompiler / SPHEvaluator (never executed) and the outcome decided by TLC (TraceSetup.tla)',
   text='The set-up contract (an equation or stepper that needs a property or constant explicitly or through the closure of the precomputed-symbol table which a destination/source array lacks, or names a non-existent array, must be rejected with an error naming the equation and a missing name; complete problems must be accepted) is specified in TLA+; the symbol table is transcribed and also dumped from the real code and compared by TLC. TLC enumerates equation shape x symbols x sources x group structure x one removal or misspelling; each case is constructed for real up to but excluding execution. All shipped equation and stepper classes are covered by the removal leg.',
   note='Incomplete problems are never compiled or run. Symbol requirements are counted for loop arguments. Only the Cython backend.'),
+ 'C05': dict(
+  cat='model_checking', design_ref='DESIGN.md section 5 (C05), 4.10',
+  technique='TLA+ specs ParLoop.tla (race freedom and schedule independence of a parallel region, all schedules model-checked by TLC) and TraceSim.tla (the configuration is a variable no step depends on); runs of exact and real-kernel problems through Application.run under many configurations compared state by state by TLC',
+  text='TLC explores every schedule of a parallel region (threads, dynamic chunks, per-thread scratch) and checks one writer per location, thread-private scratch and a result that is a function of the data alone. Integer/dyadic-exact problems (free surface, wall, periodic, two fluid arrays) and real-kernel problems with sorted neighbours are run through the Application front end for the product of --nnps x --cache-nnps x OpenMP/threads x --reorder-freq x --sort-gids (sampled in quick, complete in thorough); TLC compares per-step and final bit patterns by particle identity with the reference configuration, and a repetition of the reference run.',
+  note='Bit identity is demanded for exact problems under every configuration and for real-kernel problems among runs with --sort-gids and equal re-ordering frequency. The correctness of each component is bound to its own specification under C01-C04, C07, C17; this check binds their composition.'),
 }
 
 NOT_APPLICABLE = {
